@@ -198,7 +198,7 @@ Lemma find_oc_cmd_fault g out el er nf :
   = PErr (name_fault_kind nf).
 Proof.
   intros Ho He H. unfold find_output_and_command.
-  rewrite (pnv_name fl_out g out _ Ho); [|intros _; assumption|now apply sep_eq_left].
+  rewrite (pnv_name fl_out g out _ Ho); [|intros _; assumption|now apply sep_eq_left|reflexivity].
   rewrite after_eq_left, after_equals_spaces.
   now rewrite (pnv_name_fault fl_name er nf name_flags_name H).
 Qed.
